@@ -218,9 +218,14 @@ def finish(ctx, mod, wall):
         rep = {"property": ctx.prop, "tier": ctx.tier, "violations": [o.to_json() for o in violations]}
         with open(report_path, "w") as f:
             json.dump(rep, f, indent=1, default=str)
-        for o in violations[:40]:
-            print("  %s %s [%s] at %s\n      expected: %s\n      found:    %s" % (
-                o.kind.upper(), o.rule, o.key, o.where or "?", o.expected, o.found))
+        shown = {}
+        for o in violations:
+            shown.setdefault(o.ident(), []).append(o)
+        for ident, os_ in list(shown.items())[:40]:
+            o = os_[0]
+            cfgs = sorted(set(str(x.config) for x in os_))
+            print("  %s %s [%s] at %s (%s)\n      expected: %s\n      found:    %s" % (
+                o.kind.upper(), o.rule, o.key, o.where or "?", ", ".join(cfgs), o.expected, o.found))
         print("VIOLATION property=%s replay=%s" % (ctx.prop, report_path))
         return 1
     if os.path.exists(report_path):
